@@ -33,14 +33,15 @@ fn cmp_tag(a: &str, b: &str, f: Fmt) -> Ordering {
     match f { Fmt::Sem => rsv::cmp(&rsv::parse(a).unwrap(), &rsv::parse(b).unwrap()), Fmt::Pep => rp::cmp_c11(&rp::parse(a).unwrap(), &rp::parse(b).unwrap()) }
 }
 
-struct StateRef<'a> { shape: &'a Shape, tags: &'a [Tag], head: &'a Head, wt: WorkTree, repo: &'a Repo, label: String }
+struct StateRef<'a> { shape: &'a Shape, tags: &'a [Tag], head: &'a Head, wt: WorkTree, repo: &'a Repo, label: String, /// directory given to -C when it is not the repository's main work tree (linked worktree, separate git dir)
+    cdir: Option<std::path::PathBuf> }
 
 fn head_commit(s: &StateRef) -> usize { match s.head { Head::Branch(b) => s.shape.branches[b], Head::Detached(c) => *c } }
 
 /// Judge one materialised state under one input format.
 fn judge(ctx: &Ctx, s: &StateRef, input: &str, st: &mut Stats) -> Option<(String, u64)> {
     st.inc("evaluations");
-    let dir = s.repo.dir.to_string_lossy().to_string();
+    let dir = s.cdir.as_ref().unwrap_or(&s.repo.dir).to_string_lossy().to_string();
     let args = ["version", "-C", &dir, "--input-format", input, "--output-format", "zerv"];
     let r = zv::run_cli(&args, None);
     let key = format!("{} [input-format {input}]", s.label);
@@ -156,7 +157,7 @@ fn main() {
         let mut repo = Repo::create(&root, "replay", &shape, &dates);
         repo.set_tags(&tags); repo.set_head(&head); repo.set_worktree(wt, "f0");
         let mut st = Stats::default();
-        let sr = StateRef { shape: &shape, tags: &tags, head: &head, wt, repo: &repo, label: format!("replay ops {ops:?} tags {:?} head {head:?} worktree {wt:?}", tags.iter().map(|t| format!("{}@{}", t.name, t.target)).collect::<Vec<_>>()) };
+        let sr = StateRef { shape: &shape, tags: &tags, head: &head, wt, repo: &repo, label: format!("replay ops {ops:?} tags {:?} head {head:?} worktree {wt:?}", tags.iter().map(|t| format!("{}@{}", t.name, t.target)).collect::<Vec<_>>()), cdir: None };
         judge(&ctx, &sr, case["input_format"].as_str().unwrap_or("auto"), &mut st);
         println!("replayed 1 repository state ({} git evaluations)", st.get("evaluations"));
         repo.remove();
@@ -214,7 +215,7 @@ fn main() {
                 repo.set_head(head);
                 st.inc("states");
                 let label = format!("ops {:?} dates {:?} tags {:?} head {:?}", shape.ops, u.mode, tags.iter().map(|t| format!("{}@{}{}", t.name, t.target, if t.annotated { "(annotated)" } else { "" })).collect::<Vec<_>>(), head);
-                let sr = StateRef { shape, tags, head, wt: WorkTree::Clean, repo: &repo, label };
+                let sr = StateRef { shape, tags, head, wt: WorkTree::Clean, repo: &repo, label, cdir: None };
                 // all three input formats on states that carry a tag only one format accepts; auto otherwise
                 let inputs: &[&str] = if tags.iter().any(|t| t.name == "1.5.0rc1") || tags.is_empty() { &["auto", "semver", "pep440"] } else { &["auto"] };
                 for input in inputs { judge(&ctx, &sr, input, &mut st); }
@@ -240,7 +241,7 @@ fn main() {
                 repo.set_head(&head);
                 st.inc("states"); st.inc("per_commit_states");
                 let label = format!("tags on one commit {:?} head {:?}", tags.iter().map(|t| t.name.as_str()).collect::<Vec<_>>(), head);
-                let sr = StateRef { shape: &linear, tags: &tags, head: &head, wt: WorkTree::Clean, repo: &repo, label };
+                let sr = StateRef { shape: &linear, tags: &tags, head: &head, wt: WorkTree::Clean, repo: &repo, label, cdir: None };
                 for input in ["auto", "semver", "pep440"] { judge(&ctx, &sr, input, &mut st); }
             }
         }
@@ -269,7 +270,7 @@ fn main() {
             repo.set_worktree(wt, &tracked);
             st.inc("states"); st.inc("worktree_states");
             let label = format!("worktree {wt:?} on ops {:?} tags {:?} head {head:?}", shape.ops, tags.iter().map(|t| t.name.as_str()).collect::<Vec<_>>());
-            let sr = StateRef { shape, tags, head, wt, repo: &repo, label };
+            let sr = StateRef { shape, tags, head, wt, repo: &repo, label, cdir: None };
             for input in ["auto", "pep440"] { judge(&ctx, &sr, input, &mut st); }
             repo.reset_worktree();
         }
@@ -297,13 +298,57 @@ fn main() {
                 repo.set_head(&head);
                 st.inc("states"); st.inc("refname_states");
                 let label = format!("branch {name:?} tags {:?} head {:?}", tags.iter().map(|t| format!("{}@{}{}", t.name, t.target, if t.annotated { "(annotated)" } else { "" })).collect::<Vec<_>>(), head);
-                let sr = StateRef { shape: &shape, tags, head: &head, wt: WorkTree::Clean, repo: &repo, label };
+                let sr = StateRef { shape: &shape, tags, head: &head, wt: WorkTree::Clean, repo: &repo, label, cdir: None };
                 for input in ["auto", "semver", "pep440"] { judge(&ctx, &sr, input, &mut st); }
             }
         }
         repo.remove();
         st
     }).reduce(Stats::default, Stats::merge);
+
+    // layer F: checkout kinds whose `.git` is a file, not a directory - a linked worktree (`git worktree add`), also nested
+    // inside the main work tree, and a work tree with a separate git directory; the facts are those of *that* checkout
+    let s_f = {
+        let mut st = Stats::default();
+        let shape = Shape { parents: vec![vec![], vec![0], vec![1], vec![1]], branches: [("main".to_string(), 2), ("feature/x".to_string(), 3)].into_iter().collect(), cur: "main".into(), ops: vec!["commit".into(), "branch feature/x".into(), "commit".into(), "checkout main".into(), "commit".into()] };
+        let mut repo = Repo::create(&root, "lw_main", &shape, &gitx::dates(4, DateMode::Increasing));
+        let tags = vec![Tag { name: "v1.0.0".into(), target: 0, annotated: false }, Tag { name: "v2.0.0".into(), target: 2, annotated: true }];
+        repo.set_tags(&tags);
+        repo.set_head(&Head::Branch("main".into()));
+        for (kind, path) in [("linked worktree beside the repository", root.join("lw_side")), ("linked worktree nested in the main work tree", repo.dir.join("ignored_nested_wt"))] {
+            gitx::git(&repo.dir, &["worktree", "add", "-q", "-f", path.to_str().unwrap(), "feature/x"], None);
+            for wt in [WorkTree::Clean, WorkTree::Untracked] {
+                if wt == WorkTree::Untracked { std::fs::write(path.join("untracked.txt"), "x").unwrap(); }
+                let head = Head::Branch("feature/x".into());
+                st.inc("states"); st.inc("checkout_kind_states");
+                let sr = StateRef { shape: &shape, tags: &tags, head: &head, wt, repo: &repo, label: format!("{kind}, {wt:?}: branch feature/x at commit 3, tags v1.0.0@0 v2.0.0@2 (main work tree on main at commit 2)"), cdir: Some(path.clone()) };
+                for input in ["auto", "semver"] { judge(&ctx, &sr, input, &mut st); }
+            }
+            gitx::git(&repo.dir, &["worktree", "remove", "--force", path.to_str().unwrap()], None);
+        }
+        // the main work tree itself must be unaffected by having had linked worktrees
+        { let head = Head::Branch("main".into()); let sr = StateRef { shape: &shape, tags: &tags, head: &head, wt: WorkTree::Clean, repo: &repo, label: "main work tree after linked worktrees".into(), cdir: None }; st.inc("states"); judge(&ctx, &sr, "auto", &mut st); }
+        repo.remove();
+        // separate git directory: `.git` is a file pointing elsewhere
+        {
+            let linear2 = Shape { parents: vec![vec![], vec![0]], branches: [("main".to_string(), 1)].into_iter().collect(), cur: "main".into(), ops: vec!["commit".into()] };
+            let mut r2 = Repo::create(&root, "sep_src", &linear2, &gitx::dates(2, DateMode::Increasing));
+            let tags2 = vec![Tag { name: "v1.2.3".into(), target: 0, annotated: true }];
+            r2.set_tags(&tags2);
+            r2.set_head(&Head::Branch("main".into()));
+            let gd = root.join("sep_gitdir");
+            let _ = std::fs::remove_dir_all(&gd);
+            std::fs::rename(r2.dir.join(".git"), &gd).unwrap_or_else(|e| machinery_error(&format!("separate git dir: {e}")));
+            std::fs::write(r2.dir.join(".git"), format!("gitdir: {}\n", gd.display())).unwrap();
+            let head = Head::Branch("main".into());
+            st.inc("states"); st.inc("checkout_kind_states");
+            let sr = StateRef { shape: &linear2, tags: &tags2, head: &head, wt: WorkTree::Clean, repo: &r2, label: "work tree with a separate git directory (.git is a file)".into(), cdir: None };
+            for input in ["auto", "pep440"] { judge(&ctx, &sr, input, &mut st); }
+            let _ = std::fs::remove_dir_all(&gd);
+            r2.remove();
+        }
+        st
+    };
 
     // process conformance slice: the real binary with -C, absolute and relative, from another cwd
     let mut s_p = Stats::default();
@@ -328,7 +373,7 @@ fn main() {
     }
     let _ = std::fs::remove_dir_all(&root);
 
-    let all = s_main.merge(s_c).merge(s_d).merge(s_e).merge(s_p.clone());
+    let all = s_main.merge(s_c).merge(s_d).merge(s_e).merge(s_f).merge(s_p.clone());
     let was_capped = capped.load(std::sync::atomic::Ordering::Relaxed);
     let mut cov = Coverage::default();
     cov.states = all.get("states");
@@ -336,13 +381,13 @@ fn main() {
     cov.evaluations = all.get("evaluations") + all.get("render_evaluations");
     cov.traces_validated = all.get("states");
     cov.distinct_nontrivial = all.get("tagged_evaluations");
-    cov.rule = format!("layer A: BFS over commit / branch&checkout / checkout / merge(ff or true merge) from a one-commit repository, commits <= {nc}, extra branches <= {nb}: {} distinct shapes ({} used{}), {} explorer transitions; layer B: every placement of <= {tmax} tags from {:?} on any commits x HEAD at every branch tip and detached at every commit x date modes (increasing; decreasing, zig-zag and all-equal for merge shapes); layer C: every subset of <= {max_subset} of 8 names {:?} on one commit x 2 HEAD positions x 3 input formats; layer D: 15 work-tree states x {} baseline repositories; layer E: 11 branch names (with '/', '.', non-ASCII, equal to a version tag / a non-version tag / a ref-namespace word) x a tag of the same short name (absent, lightweight or annotated, on the middle commit or the tip) x HEAD on that branch / the other branch / detached x 3 input formats. Every state is materialised in real git by fast-import, conformance-checked with `git log --all` / `for-each-ref` / `symbolic-ref` / `status --porcelain=v2`, and judged against R-GIT (nearest validly tagged commit, highest tag under R-SV / C11 order (auto mode: highest under either format that accepts it), distance = |reach(HEAD) minus reach(tag)|, dirty, branch, hashes, times). non-trivial = evaluations that have a valid reachable tag", all_shapes.len(), shapes.len(), if quick { ": all with <= 3 commits plus the 4-commit merge shapes" } else { "" }, shape_transitions, alpha.iter().map(|a| a.0).collect::<Vec<_>>(), names8.iter().map(|a| a.0).collect::<Vec<_>>(), baselines.len());
+    cov.rule = format!("layer A: BFS over commit / branch&checkout / checkout / merge(ff or true merge) from a one-commit repository, commits <= {nc}, extra branches <= {nb}: {} distinct shapes ({} used{}), {} explorer transitions; layer B: every placement of <= {tmax} tags from {:?} on any commits x HEAD at every branch tip and detached at every commit x date modes (increasing; decreasing, zig-zag and all-equal for merge shapes); layer C: every subset of <= {max_subset} of 8 names {:?} on one commit x 2 HEAD positions x 3 input formats; layer D: 15 work-tree states x {} baseline repositories; layer E: 11 branch names (with '/', '.', non-ASCII, equal to a version tag / a non-version tag / a ref-namespace word) x a tag of the same short name (absent, lightweight or annotated, on the middle commit or the tip) x HEAD on that branch / the other branch / detached x 3 input formats; layer F: checkouts whose .git is a file (linked worktree beside and nested inside the main work tree, separate git directory) clean and with an untracked file. Every state is materialised in real git by fast-import, conformance-checked with `git log --all` / `for-each-ref` / `symbolic-ref` / `status --porcelain=v2`, and judged against R-GIT (nearest validly tagged commit, highest tag under R-SV / C11 order (auto mode: highest under either format that accepts it), distance = |reach(HEAD) minus reach(tag)|, dirty, branch, hashes, times). non-trivial = evaluations that have a valid reachable tag", all_shapes.len(), shapes.len(), if quick { ": all with <= 3 commits plus the 4-commit merge shapes" } else { "" }, shape_transitions, alpha.iter().map(|a| a.0).collect::<Vec<_>>(), names8.iter().map(|a| a.0).collect::<Vec<_>>(), baselines.len());
     cov.exhaustive = !was_capped;
     cov.samples = vec![json!({"ops":["branch b1","commit","checkout main","commit","merge b1"],"dates":"decreasing","tags":["v2.0.0@1","v1.0.0@0"],"head":"main"}), json!({"one_commit_tags":["v1.0.0","1.1.0rc1","1.1.0.post1"],"input_format":"auto"}), json!({"worktree":"IgnoredOnly","head":"detached"})];
     cov.set("clause_counts", all.to_json());
     cov.set("wall_cap_hit", was_capped);
     cov.set("explorer_cross_check", json!({"engine":"stateright 0.31 spawn_bfs","unique_states":sr_states,"own_bfs_states":all_shapes.len()}));
     cov.set("process_conformance_cases", s_p.get("process_conformance_cases"));
-    cov.assumptions = vec!["R-GIT (harness/src/gitx.rs + the oracle in c02.rs); which of several equal-precedence tags / which member of the nearest-tag antichain is reported is left open".into(), "octopus merges, shallow clones, worktrees, submodules, packed refs and exotic tag names are out of scope".into(), "tag validity judged by the reference recognisers R-SV / R-PEP".into()];
+    cov.assumptions = vec!["R-GIT (harness/src/gitx.rs + the oracle in c02.rs); which of several equal-precedence tags / which member of the nearest-tag antichain is reported is left open".into(), "octopus merges, shallow clones, submodules and packed refs are out of scope".into(), "tag validity judged by the reference recognisers R-SV / R-PEP".into()];
     finish(&ctx, cov);
 }
